@@ -785,7 +785,7 @@ func execC17(t *testing.T, c *Case) *Verdict {
 	e := &c17Exec{c: c, v: v, progs: map[string]*compiled{}}
 	defer func() {
 		if p := recover(); p != nil {
-			v.Infra = fmt.Sprintf("bubble panic: %v", p)
+			v.Infra = bubblePanic(p, &v.Stats)
 		}
 	}()
 	var sdig string
@@ -856,7 +856,7 @@ func execC17(t *testing.T, c *Case) *Verdict {
 			r.setRootOp(nil)
 		} else {
 			sc := newSched(c.Tape, c.Knobs.SwitchThr, 8000)
-			r.sc = sc
+			r.attach(sc)
 			r.taskOps = make([]*opCtx, len(cl))
 			panics := make([]string, len(cl))
 			for ci := range cl {
@@ -881,7 +881,7 @@ func execC17(t *testing.T, c *Case) *Verdict {
 				v.Infra = err.Error()
 				return
 			}
-			r.sc = nil
+			r.detach(sc)
 			for ci, p := range panics {
 				if p != "" {
 					v.Infra = fmt.Sprintf("client %d harness panic: %s", ci, p)
